@@ -11,6 +11,8 @@ fns = [f for f in ev["coverage"]["functions_under_contract"] if f.get("mode") ==
 OPS = [(r" < ", " <= "), (r" <= ", " < "), (r" > ", " >= "), (r" >= ", " > "), (r" == ", " != "), (r" != ", " == "), (r" && ", " || "), (r" \|\| ", " && "),
        (r"\btrue\b", "false"), (r"\bfalse\b", "true"), (r" \+ 1\b", " + 2"), (r" - 1\b", " - 2"), (r"\+= ", "-= "), (r"!self\.", "self."), (r"!this\.", "this."),
        (r"\.is_some\(\)", ".is_none()"), (r"\.is_none\(\)", ".is_some()"), (r"\.is_empty\(\)", ".is_empty() == false")]
+if os.environ.get("MUT_UNIT"):
+    fns = [f for f in fns if f.get("unit") in os.environ["MUT_UNIT"].split(",")]
 cands = []
 for f in fns:
     path = os.path.join("/repo", f["file"])
